@@ -115,6 +115,9 @@ func runC12(c *an.Ctx) {
 	checkElapsedOnlyWhenPublished(c, "C12.b", wait)
 	checkSharedSignalReleasedLast(c, "C12.b")
 	checkShortcutHeightMatches(c, "C12.a", lookup)
+	if np := p.Method("store", "heightSub", "Notify"); c.Need(np, "C12.c", "store.(*heightSub).Notify") {
+		checkNotifyAlwaysLooks(c, "C12.c", np)
+	}
 
 	// --- C12.b Wait: one critical section for re-check + registration
 	// The critical section may live in Wait itself or in a helper method of heightSub that Wait
